@@ -64,23 +64,35 @@ impl Codegen for Choice {
         clone_state: CloneState,
     ) -> Result<Option<TokenStream>> {
         if self.choices.len() < 2 {
-            self.choices[0].generate_inline_body(rule_fields, grammar, settings, clone_state)
-        } else if self.choices.iter().all(|c| {
-            c.generate_inline_body(rule_fields, grammar, settings, CloneState::No)
-                .ok()
-                .flatten()
-                .is_some()
-        }) && self.get_filtered_rule_fields(rule_fields, grammar)?.len() <= 1
-        {
-            Ok(Some(self.generate_parse_body(
+            return self.choices[0].generate_inline_body(
                 rule_fields,
                 grammar,
                 settings,
                 clone_state,
-            )?))
-        } else {
-            Ok(None)
+            );
         }
+        if self.get_filtered_rule_fields(rule_fields, grammar)?.len() > 1 {
+            return Ok(None);
+        }
+        // The inline bodies are generated once and handed to generate_parse_body: generating them a
+        // second time there doubles the work at every level of nested inlinable choices.
+        let mut inline_bodies = Vec::with_capacity(self.choices.len());
+        for choice in &self.choices {
+            match choice
+                .generate_inline_body(rule_fields, grammar, settings, CloneState::No)
+                .ok()
+                .flatten()
+            {
+                Some(inline_body) => inline_bodies.push(Some(inline_body)),
+                None => return Ok(None),
+            }
+        }
+        Ok(Some(self.generate_parse_body_with(
+            rule_fields,
+            grammar,
+            inline_bodies,
+            clone_state,
+        )?))
     }
 
     fn get_fields<'a>(&'a self, grammar: &'a Grammar) -> Result<Vec<FieldDescriptor<'a>>> {
@@ -126,16 +138,34 @@ impl Choice {
         settings: &CodegenSettings,
         clone_state: CloneState,
     ) -> Result<TokenStream> {
+        let inline_bodies = self
+            .choices
+            .iter()
+            .map(|choice| {
+                choice
+                    .generate_inline_body(rule_fields, grammar, settings, CloneState::No)
+                    .unwrap()
+            })
+            .collect();
+        self.generate_parse_body_with(rule_fields, grammar, inline_bodies, clone_state)
+    }
+
+    /// `inline_bodies`: for every alternative its inline body, or None if it has its own module
+    fn generate_parse_body_with(
+        &self,
+        rule_fields: &[FieldDescriptor],
+        grammar: &Grammar,
+        inline_bodies: Vec<Option<TokenStream>>,
+        clone_state: CloneState,
+    ) -> Result<TokenStream> {
         let fields = self.get_filtered_rule_fields(rule_fields, grammar)?;
         let calls = self
             .choices
             .iter()
+            .zip(inline_bodies)
             .enumerate()
-            .map(|(num, choice)| {
-                let parse_call = if let Some(inline_body) = choice
-                    .generate_inline_body(rule_fields, grammar, settings, CloneState::No)
-                    .unwrap()
-                {
+            .map(|(num, (choice, inline_body))| {
+                let parse_call = if let Some(inline_body) = inline_body {
                     inline_body
                 } else {
                     let choice_mod = format_ident!("choice_{num}");
